@@ -4,7 +4,7 @@ from __future__ import annotations
 
 import json
 
-from common import (NCPU, SPEC, MachineryError, Outcome, cached, drive, run_parallel, seed,
+from common import (NCPU, NSHARDS, shard_hashseed, SPEC, MachineryError, Outcome, cached, drive, run_parallel, seed,
                     tagged_lines, tlc, tlc_ok, tlc_violation, workdir)
 
 
@@ -27,7 +27,7 @@ def mc(wd, family: str) -> dict:
             raise MachineryError(f"SepMachine design check ({family}): {v} violated\n" + r["out"][-3000:])
         tlc_ok(r, f"SepMachine MC {family}")
         return {"generated": r["generated"], "distinct": r["distinct"], "family": family}
-    return cached(f"sep-mc-{family}", go)
+    return cached(f"sep-mc-{family}", go, module="SepMachine")
 
 
 def tables(wd, family: str, *, rnd_seed: int | None = None, rndn=5, rndk=8) -> dict:
@@ -40,7 +40,7 @@ def tables(wd, family: str, *, rnd_seed: int | None = None, rndn=5, rndk=8) -> d
         return {"recs": recs, "generated": r["generated"], "distinct": r["distinct"]}
     if rnd_seed is not None:
         return go(), False
-    return cached(f"sep-gen-{family}", go)
+    return cached(f"sep-gen-{family}", go, module="SepMachine")
 
 
 def warm_all() -> None:
@@ -82,17 +82,17 @@ def replay(wd, mode: str, recs: list, n_orders: int) -> tuple[dict, list]:
     if mode in ("dsep", "ci"):
         recs = [dict(r) for r in recs]
         attach_histories(recs)
-    shards = [recs[i::NCPU] for i in range(NCPU)]
+    shards = [recs[i::NSHARDS] for i in range(NSHARDS)]
     jobs = []
     for i, sh in enumerate(shards):
         if not sh:
             continue
         f = wd / f"{mode}-in{i}.json"
         f.write_text(json.dumps(sh))
-        jobs.append((f, wd / f"{mode}-out{i}.json"))
+        jobs.append((f, wd / f"{mode}-out{i}.json", i))
 
     def one(job):
-        drive("drive_sep.py", [mode, str(job[0]), str(job[1]), str(n_orders)])
+        drive("drive_sep.py", [mode, str(job[0]), str(job[1]), str(n_orders)], hashseed=shard_hashseed(job[2]))
         return json.loads(job[1].read_text())
 
     stats: dict[str, int] = {}
